@@ -281,6 +281,12 @@ func (c *Converter) ExpandContainerValue(ctx context.Context, p *sdcpb.Path, jv 
 						Value: &sdcpb.TypedValue_EmptyVal{},
 					}
 				default:
+					// the value of a leaf is a scalar: null, an object or an array have no text that could be it
+					switch v.(type) {
+					case string, json.Number, bool, float64:
+					default:
+						return nil, fmt.Errorf("leaf %q expects a scalar value, got %T", item.Name, v)
+					}
 					schemaRsp, err := c.schemaClientBound.GetSchemaSdcpbPath(ctx, np)
 					if err != nil {
 						return nil, err
